@@ -16,7 +16,7 @@ from .c01 import _tuplify
 
 ID = 'C17'
 LEVEL = 'other'
-TECHNIQUE = 'jaxpr-level symbolic execution of pixel2index with symbolic REAL coordinates (round-half-even, float->int conversion, validity mask as definitional atoms) + z3 QF_NIRA'
+TECHNIQUE = 'jaxpr-level symbolic execution of pixel2index with symbolic REAL coordinates (round-half-even, float->int conversion, validity mask as definitional atoms) + z3 QF_NIRA; HEALPix lookup and coverage map compared concretely with healpy / numpy.bincount as a complement'
 EXPLANATION = ('StokesLandscape.pixel2index is traced for every map shape of the family; coordinates are symbolic reals, round() is an integer atom '
                'with the exact round-half-to-even constraints of XLA, the validity mask and jnp.where are symbolic Booleans/ite. z3 decides, for ALL '
                'coordinates: strictly inside pixel (i1..ik) => index = sum i_k * stride_k (first coordinate fastest); outside the half-pixel frame in '
